@@ -61,6 +61,23 @@ thread_local! {
 
 /// build a weight table for labels 0..n in the way selected by the case (the result must not depend on it)
 fn params_of<T: Semiring>(n: usize, w: &dyn Fn(usize, bool) -> T) -> WmcParams<T> {
+    // after the table is complete, 0..2 of its entries are set once more to the value they have (the number cycles from
+    // table to table): tables of one case then differ in content while having seen the same number of updates
+    thread_local! {
+        static CALLS: std::cell::Cell<usize> = const { std::cell::Cell::new(0) };
+    }
+    let extra = CALLS.with(|c| {
+        c.set(c.get().wrapping_add(1));
+        [0usize, 1, 0, 2, 1][c.get() % 5]
+    });
+    let mut p = params_of_plain(n, w);
+    for v in 0..extra.min(n) {
+        p.set_weight(VarLabel::new_usize(v), w(v, false), w(v, true));
+    }
+    p
+}
+
+fn params_of_plain<T: Semiring>(n: usize, w: &dyn Fn(usize, bool) -> T) -> WmcParams<T> {
     let mode = WMODE.with(|m| m.get()) % 4;
     match mode {
         1 => {
